@@ -395,6 +395,7 @@ func (x *Exec) havocCell(st *State, c *Cell) {
 
 func (x *Exec) havocLoop(st *State, f *Frame, li *LoopInfo) {
 	heapNames := map[string]bool{}
+	ownedWritten := map[int]bool{}
 	loopAlloc := st.allocCtr
 	cells := map[*Cell]bool{}
 	dyn := false
@@ -420,6 +421,18 @@ func (x *Exec) havocLoop(st *State, f *Frame, li *LoopInfo) {
 			switch in := in.(type) {
 			case *ssa.Store:
 				markRoot(rootOf(in.Addr))
+				// element write into a freshly made slice held in a local: its content is re-abstracted at the loop head
+				if ia, ok := in.Addr.(*ssa.IndexAddr); ok {
+					if ld, ok := ia.X.(*ssa.UnOp); ok {
+						if al, ok := ld.X.(*ssa.Alloc); ok {
+							if cell := f.cellsByA[al]; cell != nil {
+								if o, ok := st.cells[cell].(*Owned); ok {
+									ownedWritten[o.id] = true
+								}
+							}
+						}
+					}
+				}
 				_, rootIsAlloc := rootOf(in.Addr).(*ssa.Alloc)
 				if al, ok := rootOf(in.Addr).(*ssa.Alloc); ok && !li.body[al.Block()] {
 					rootIsAlloc = false // allocated before the loop: an existing object from the loop's point of view
@@ -506,6 +519,14 @@ func (x *Exec) havocLoop(st *State, f *Frame, li *LoopInfo) {
 	}
 	for c := range cells {
 		x.havocCell(st, c)
+	}
+	for id := range ownedWritten {
+		os := st.owned[id]
+		e := seqElem(os.content.Sort)
+		nc := st.Fresh("owned", os.content.Sort)
+		st.Assume(Eq(App("Int", "len_"+e, nc), App("Int", "len_"+e, os.content)))
+		os.content = nc
+		os.depth = x.loopDepth(st) + 1
 	}
 	for n, full := range heapNames {
 		switch n {
